@@ -222,3 +222,68 @@ Qed.
 (* batch-level error object: raised for the batch, whatever the requests were *)
 Theorem batch_level_error strict qs e : relate_batch strict qs (BError e) = Ok (BError e) /\ result_batch (BError e) = CRaise (CRpc e).
 Proof. split; reflexivity. Qed.
+
+(* ---------- request building (C07) ---------- *)
+Lemma add_ids_snoc seen i ids : add_ids seen (Some i :: ids) = if mem_id i seen then Raise XIdentity else add_ids (seen ++ [i]) ids.
+Proof. reflexivity. Qed.
+Lemma batch_extend_cons {A} (idof : A -> option idv) b x xs :
+  batch_extend idof b (x :: xs) = (do b' <- batch_extend idof b [x] ; batch_extend idof b' xs).
+Proof.
+  unfold batch_extend, bind. cbn [map add_ids]. destruct (idof x) as [i|] eqn:E.
+  - cbn [add_ids]. destruct (mem_id i (b_ids b)); [reflexivity|]. cbn [b_ids b_items].
+    destruct (add_ids (b_ids b ++ [i]) (map idof xs)); [|reflexivity]. rewrite <- app_assoc. reflexivity.
+  - cbn [add_ids b_ids b_items]. destruct (add_ids (b_ids b) (map idof xs)); [|reflexivity]. rewrite <- app_assoc. reflexivity.
+Qed.
+(* adding the requests one by one (batch.add / batch(...) / proxy) is adding them all at once (batch[...]) *)
+Lemma fold_append_extend rs : forall acc,
+  fold_left (fun a r => do b <- a ; breq_append b r) rs (Ok acc) = breq_extend acc rs.
+Proof.
+  induction rs as [|r rs IH]; intros acc.
+  - cbn. unfold breq_extend, batch_extend, bind. cbn. rewrite app_nil_r. destruct acc; reflexivity.
+  - cbn [fold_left]. unfold breq_extend. rewrite batch_extend_cons. cbn [bind].
+    unfold breq_append, batch_append. destruct (batch_extend r_id acc [r]) as [acc'|x].
+    + apply IH.
+    + cbn. clear. induction rs as [|r' rs IH]; cbn; auto.
+Qed.
+
+Lemma mk_params_pos pos : mk_params pos [] = Ok (match pos with [] => PDict [] | _ => PList pos end).
+Proof. destruct pos; reflexivity. Qed.
+Lemma req_to_json_empty_params m i : 
+  req_to_json {| r_method := m; r_params := PDict []; r_id := i |} = req_to_json {| r_method := m; r_params := PList []; r_id := i |}.
+Proof. reflexivity. Qed.
+
+Lemma build_items_getitem g items : forall k,
+  match build_getitem g k items, build_items g k (map (fun mp => BCall (fst mp) (snd mp) []) items) with
+  | Ok a, Ok b => map req_to_json a = map req_to_json b /\ map r_id a = map r_id b
+  | Raise x, Raise y => x = y
+  | _, _ => False end.
+Proof.
+  induction items as [|[m pos] items IH]; intros k; cbn; [auto|].
+  rewrite mk_params_pos. unfold bind. cbn. destruct (gen_nth g k) as [i|x]; [|reflexivity].
+  specialize (IH (S k)). destruct (build_getitem g (S k) items) as [a|x]; destruct (build_items g (S k) _) as [b|y]; try contradiction; auto.
+  destruct IH as [A B]. cbn. split; [|rewrite B; reflexivity]. rewrite A. f_equal. destruct pos; reflexivity.
+Qed.
+
+Lemma extend_same_ids (a b : list request) acc : map r_id a = map r_id b ->
+  match breq_extend acc a, breq_extend acc b with
+  | Ok x, Ok y => b_ids x = b_ids y /\ b_items x = b_items acc ++ a /\ b_items y = b_items acc ++ b
+  | Raise x, Raise y => x = y
+  | _, _ => False end.
+Proof.
+  intros H. unfold breq_extend, batch_extend, bind. rewrite H. destruct (add_ids (b_ids acc) (map r_id b)); cbn; auto.
+Qed.
+
+(* every notation for the same calls puts the same document on the wire *)
+Theorem notations_same_wire g items :
+  match build_batch g (BnGetitem items), build_batch g (BnAdd (map (fun mp => BCall (fst mp) (snd mp) []) items)) with
+  | Ok a, Ok b => breq_to_json a = breq_to_json b
+  | Raise x, Raise y => x = y
+  | _, _ => False end.
+Proof.
+  cbn [build_batch]. unfold bind. pose proof (build_items_getitem g items 0) as H.
+  destruct (build_getitem g 0 items) as [a|x]; destruct (build_items g 0 _) as [b|y]; try contradiction; auto.
+  destruct H as [A B]. rewrite fold_append_extend.
+  pose proof (extend_same_ids a b batch_empty B) as E.
+  destruct (breq_extend batch_empty a) as [x|x]; destruct (breq_extend batch_empty b) as [y|y]; try contradiction; auto.
+  destruct E as [_ [Ea Eb]]. unfold breq_to_json. rewrite Ea, Eb. cbn. rewrite A. reflexivity.
+Qed.
